@@ -257,6 +257,11 @@ class ShapeInterp:
             return self.exec_for(fi, st, it, env, outs)
         if isinstance(st, ast.Assert):
             return [env]
+        if isinstance(st, ast.Match):
+            from .model import desugar_match
+            d = desugar_match(st)
+            if d is not None:
+                return self.stmt(fi, d, env, outs, loop)
         raise AnalysisError(f"shape interpreter: statement {type(st).__name__} at {fi.loc(st)} not supported")
 
     def bind(self, target, val, env):
